@@ -365,6 +365,8 @@ def num_add(self, a, b, node, what='add', sub=False):
     if a.ex is not None and b.ex is not None:
         r.ex = (a.ex - b.ex) if sub else (a.ex + b.ex)
         r.sz = r.ex.to_sympy() if not r.ex.is_const() else sp.Integer(1)
+        if r.shape == () and r.ex.nonneg():
+            r.nonneg = True          # an exact size expression that is >= 0 for all admissible sizes (m - 1 with m >= 2)
     elif r.shape == () and what == 'add':
         sa, sb = sym_of(a), sym_of(b)
         if sa is not None and sb is not None:
@@ -597,6 +599,8 @@ def _int_dtype(self, op, va, vb, r, node):
         return (isinstance(v, Num) and v.intdt) or isinstance(v, IntV) or (isinstance(v, Const) and isinstance(v.v, int) and not isinstance(v.v, bool))
     def data(v):
         return isinstance(v, Num) and v.intdt
+    if isinstance(op, ast.Div) and (data(va) or data(vb)):
+        r.divd = True          # a quotient of integer-typed samples: storing it back into their dtype truncates it
     if not (data(va) or data(vb)) or not (isint(va) and isint(vb)):
         return
     if isinstance(op, (ast.Add, ast.Sub, ast.Mult)):
@@ -1689,6 +1693,22 @@ def index_value(self, v, idx, node):
         return TopV('subscript of opaque', taint_of(v))
     if isinstance(v, TopV):
         return TopV('subscript of top', v.taint | taint_of(idx))
+    if isinstance(v, ExtV) and v.dotted == 'numpy.r_':
+        # np.r_[a, b, lo:hi:step, ...]: the concatenation of its items, a slice standing for arange(lo, hi, step)
+        from .prims import PRIMS
+        items = idx.items if isinstance(idx, Tup) else [idx]
+        parts = []
+        for it in items:
+            if isinstance(it, SliceV):
+                if it.hi is None:
+                    return TopV('subscript of ext')
+                a_ = [it.lo if it.lo is not None else Const(0), it.hi] + ([it.step] if it.step is not None else [])
+                parts.append(PRIMS['numpy.arange'](self, 'numpy.arange', a_, {}, node, None))
+            else:
+                parts.append(it)
+        if len(parts) == 1 and isinstance(items[0], SliceV):
+            return parts[0]
+        return PRIMS['numpy.concatenate'](self, 'numpy.concatenate', [Tup(parts)], {}, node, None)
     if isinstance(v, ExtV):
         return TopV('subscript of ext')
     self.unsupported('subscript of %s' % type(v).__name__, node)
